@@ -30,6 +30,7 @@ type thread struct {
 	pred    func() bool // nil = enabled
 	why     string
 	yielded bool // parked at a spin-loop yield: others go first
+	settling bool // parked in Settle (counts as quiescent for other settlers)
 	fn      func()
 	panicV  any
 	panicAt string
@@ -55,9 +56,34 @@ type Sched struct {
 	Panics      []string
 	Trace       []string // (thread, location) per scheduling decision, for replay artefacts
 	held        map[any]string
+	blockedWhy  []string
 
 	TickBudget int
 	ticks      int
+	noExplore  bool
+}
+
+// SetExplore(false) makes every scheduling decision take the default (no choice point
+// is recorded) until SetExplore(true): a harness uses it for its deterministic setup
+// phase, so that only the part under test is explored.
+func (s *Sched) SetExplore(on bool) { s.noExplore = !on }
+
+// BlockedOnly reports, after Run ended in Deadlock, whether every unfinished thread was
+// waiting for one of the given kinds of external input (prefixes of the wait reason,
+// e.g. "accept ", "read "): the execution is then quiescent rather than deadlocked.
+func (s *Sched) BlockedOnly(prefixes ...string) bool {
+	for _, w := range s.blockedWhy {
+		ok := false
+		for _, p := range prefixes {
+			if strings.HasPrefix(w, p) {
+				ok = true
+			}
+		}
+		if !ok {
+			return false
+		}
+	}
+	return true
 }
 
 var cur atomic.Pointer[Sched]
@@ -167,6 +193,7 @@ func (s *Sched) Run() {
 			for _, t := range s.threads {
 				if !t.done {
 					why = append(why, fmt.Sprintf("%s waits for %s", t.name, t.why))
+					s.blockedWhy = append(s.blockedWhy, t.why)
 				}
 			}
 			for _, h := range s.held {
@@ -199,13 +226,20 @@ func (s *Sched) Run() {
 				order = append(order, t)
 			}
 		}
-		for _, t := range enabled {
-			if t.yielded {
-				order = append(order, t)
+		// threads parked at a spin-loop yield run only when nothing else can (fair
+		// scheduling: a polling loop must not starve the threads it waits for); which of
+		// several spinners goes first is immaterial, so that is not a choice point
+		onlySpinners := len(order) == 0
+		if onlySpinners {
+			for _, t := range enabled {
+				if t.yielded {
+					order = append(order, t)
+					break
+				}
 			}
 		}
 		pick := 0
-		if len(order) > 1 {
+		if len(order) > 1 && !s.noExplore {
 			costs := make([]int, len(order))
 			for i := 1; i < len(order); i++ {
 				if curEnabled {
@@ -361,6 +395,36 @@ func (s *Sched) YieldIf(class, why string) {
 	if s.focusAll || s.focus[class] {
 		s.yield(why, nil)
 	}
+}
+
+// Quiescent returns a predicate that holds when every thread other than the caller is
+// finished, blocked, or parked at a spin-loop yield: "everything else has run as far as
+// it can".  A harness driver blocks on it between steps.
+func (s *Sched) Quiescent() func() bool {
+	me := s.cur
+	return func() bool {
+		for _, t := range s.threads {
+			if t == me || t.done {
+				continue
+			}
+			if t.yielded || t.settling {
+				continue
+			}
+			if t.pred != nil && !t.pred() {
+				continue
+			}
+			return false
+		}
+		return true
+	}
+}
+
+// Settle blocks the calling managed thread until all other threads are quiescent.
+func (s *Sched) Settle() {
+	t := s.cur
+	t.settling = true
+	s.yield("settle", s.Quiescent())
+	t.settling = false
 }
 
 func (s *Sched) NoteHeld(m any, where string) { s.held[m] = where }
